@@ -40,7 +40,7 @@ RULE = ('Five generated families. db: one of 34 database chemicals with complete
         'scale factors 1e-9..1e6, include_excess_energies False or True (then the pure values are H_i+H_excess_i, S_i+S_excess_i of the '
         'chemical objects; P up to 1e7 Pa); H, Cn, S against '
         'mole-weighted pure values (relative tolerance, also for one component alone), homogeneity, multi-phase xH/xS/xCn and the ideal mixing term. stream: 2-4 streams of one '
-        'phase at equal T,P mixed with Stream.mix_from (Stream or MultiStream), S_out >= sum S_in and the exact mixing-entropy '
+        'phase at equal T,P (flows 10**u, u in [-7,4]); Stream.H/C = mole-weighted pure values, also after a phase-only change of a reused Stream; mixed with Stream.mix_from (Stream or MultiStream), S_out >= sum S_in and the exact mixing-entropy '
         'increase. Non-trivial: evaluated phase differs from the reference phase, or >= 2 components present. Distinct by '
         '(family, clause, chemical/forms, reference phase, evaluated phase, lock, build mode, zero pattern).')
 ASSUMPTIONS = ['R is thermosteam.constants.R (asserted within 1e-6 of a CODATA value: 8.3144598 or 8.314462618)',
@@ -53,9 +53,9 @@ ASSUMPTIONS = ['R is thermosteam.constants.R (asserted within 1e-6 of a CODATA v
 REQUIRED_CELLS = {'quick': ['db:ref', 'db:dT', 'db:deriv', 'db:dP', 'db:jump_vap', 'db:jump_fus', 'db:locked',
                             'db:ref=s', 'db:ref=l', 'db:ref=g', 'syn:ref=s', 'syn:ref=l', 'syn:ref=g', 'syn:locked',
                             'syn:Tb<Tm', 'mix:n>=2', 'mix:n=1', 'mix:multi', 'stream:distinct', 'stream:same',
-                            'stream:kind=M', 'syn:mode=at_state', 'syn:mode=ref_setter', 'syn:mode=S0_setter',
-                            'syn:mode=Tb_setter', 'syn:mode=copy_models', 'db:copy_models=Cn', 'db:copy_models=Hvap',
-                            'db:copy_models=Cn+Hvap', 'db:copy_models=other', 'syn:copy_models=Cn', 'syn:copy_models=Hvap',
+                            'stream:kind=M', 'stream:reuse', 'syn:mode=at_state', 'syn:mode=ref_setter', 'syn:mode=S0_setter',
+                            'syn:mode=Tb_setter', 'syn:mode=copy_models', 'syn:copy_edit=live', 'syn:copy_edit=reset', 'db:copy_models=Cn', 'db:copy_models=Hvap',
+                            'db:copy_models=Cn+Hvap', 'db:copy_models=other', 'db:Hfus=kw', 'db:copy_edit=live', 'db:copy_edit=reset', 'syn:copy_models=Cn', 'syn:copy_models=Hvap',
                             'db:lock.how=at', 'db:lock.how=lock', 'mix:tiny_all', 'mix:tiny_some',
                             'mix:large', 'mix:excess=0', 'mix:excess=1', 'mix:excess>0.1%'],
                   'thorough': []}
@@ -223,29 +223,70 @@ def prop_db(ch, ctx):
         cmf_tag = ',cmf=' + ('+'.join(sorted(energy)) or 'other')
         cmf_rg = f'src=db,lock={int(locked)},donorlock={int(is_locked(donor))},names={"+".join(sorted(energy)) or "other"}'
         ctx.cell('db:copy_models=' + ('+'.join(sorted(energy)) or 'other'))
+    # further build modes (all on fresh objects): user-supplied heat of fusion; Chemical.copy followed by an edit of
+    # the copy's heat-capacity model (the `Glucose.copy('Biomass')` pattern), with or without reset_free_energies
+    extra = 0 if cmf else ch.int('build.extra', 0, 7)
+    hfus_kw = extra == 6 and not locked
+    copy_edit = extra == 7
+    reset_after_edit = True
     if locked:
         ph = ch.choice('phase', PHASES)
         how = ch.choice('lock.how', ('lock:', 'lock:', 'at:'))     # constructor phase=..  or  at_state(.., copy=True)
         if cmf:
             how = 'lock:'
             c = fresh_with_models_from(ctx, name, how + ph, donor, cmf_names, cmf_rg)
+        elif copy_edit:
+            how = 'lock:'
+            base = ctx.call('build', tmo.Chemical, name, phase=ph, region='src=db,lock=1,fresh')
         else:
             c = ctx.call('build', db_chemical, name, how + ph, region=f'src=db,lock=1,ph={ph},how={how[:-1]}')
+    else:
+        prq = ch.choice('phase_ref', PHASES)
+        if cmf:
+            c = fresh_with_models_from(ctx, name, prq, donor, cmf_names, cmf_rg)
+        elif hfus_kw:
+            Hfus_user = ch.choice('Hfus.kw0', (0.0, None))
+            if Hfus_user is None: Hfus_user = ch.float('Hfus.kw', 10.0, 8e4)
+            c = ctx.call('build', tmo.Chemical, name, phase_ref=prq, Hfus=Hfus_user, region='src=db,lock=0,Hfus=kw')
+            if c.Hfus != Hfus_user:
+                ctx.fail('build|src=db,lock=0,Hfus=kw|Hfus-ignored', f'{name}: Hfus={Hfus_user!r} given, chemical reports {c.Hfus!r}')
+            cmf_tag = ',Hfus=kw'
+            ctx.cell('db:Hfus=kw')
+        elif copy_edit:
+            base = ctx.call('build', tmo.Chemical, name, phase_ref=prq, region='src=db,lock=0,fresh')
+        else:
+            c = ctx.call('build', db_chemical, name, prq, region=f'src=db,lock=0,ref={prq}')
+    if copy_edit:
+        c = ctx.call('copy', base.copy, name.replace('-', '') + 'Copy', region=f'src=db,lock={int(locked)}')
+        edited = [ph] if locked else ch.subset('edit.phases', PHASES, min_size=1)
+        for p_ in edited:
+            a_ = ch.float(f'edit.{p_}.a', 20.0, 300.0)
+            b_ = ch.float(f'edit.{p_}.b', 0.0, 0.2)
+            model = c.Cn if locked else getattr(c.Cn, p_)
+            ctx.call('edit', model.add_method, (lambda a_, b_: lambda T: a_ + b_ * T)(a_, b_), name='C07_EDIT',
+                     region=f'src=db,lock={int(locked)}')
+        reset_after_edit = ch.bool('edit.reset')
+        if reset_after_edit:
+            ctx.call('reset_free_energies', c.reset_free_energies, region=f'src=db,lock={int(locked)}')
+        cmf_tag = f',copyedit={"reset" if reset_after_edit else "live"}'
+        ctx.cell('db:copy_edit=' + ('reset' if reset_after_edit else 'live'))
+    if locked:
         if c.locked_state != ph or c.phase_ref != ph:
             ctx.fail(f'build|src=db,lock=1,ph={ph},how={how[:-1]}|not-locked', f'{name}: locked_state={c.locked_state} phase_ref={c.phase_ref}')
         ctx.cell('db:lock.how=' + how[:-1])
         pr = c.phase_ref
         clause = ch.choice('clause', ('ref', 'dT', 'deriv', 'dP'))
     else:
-        prq = ch.choice('phase_ref', PHASES)
-        if cmf:
-            c = fresh_with_models_from(ctx, name, prq, donor, cmf_names, cmf_rg)
-        else:
-            c = ctx.call('build', db_chemical, name, prq, region=f'src=db,lock=0,ref={prq}')
         pr = c.phase_ref
         if pr != prq:
             ctx.fail(f'build|src=db,lock=0,ref={prq}|phase_ref-ignored', f'{name}: asked {prq} got {pr}')
-        clause = ch.choice('clause', DB_CLAUSES)
+        if hfus_kw:
+            clause = ch.choice('clause', ('jump_fus', 'jump_fus', 'jump_vap', 'ref', 'dT'))
+        elif not reset_after_edit:
+            # without a rebuild only the live parts of the functors follow the edited model: the in-phase clauses
+            clause = ch.choice('clause', ('ref', 'dT', 'dT', 'deriv', 'deriv', 'dP'))
+        else:
+            clause = ch.choice('clause', DB_CLAUSES)
         ph = None
     P = ch.logfloat('P', 3, 7)
     novap = (not locked) and not has_vap(c)
@@ -451,13 +492,14 @@ def draw_cn(ch, tag):
     return kind, CnForm(a, b, c, d)
 
 
-def add_cn(model, kind, form, how):
+def add_cn(model, kind, form, how, name=None):
+    kw = {'name': name} if name else {}
     if how == 'number' and kind == 'const':
-        model.add_model(form.a)
+        model.add_model(form.a, **kw)
     elif how == 'analytic':
-        model.add_model(form.__call__, f_int=form.F, f_int_over_T=form.G)
+        model.add_model(form.__call__, f_int=form.F, f_int_over_T=form.G, **kw)
     else:
-        model.add_model(form.__call__)
+        model.add_model(form.__call__, **kw)
 
 
 def draw_syn(ch, tag='syn', allow_lock=True, allow_modes=True):
@@ -489,7 +531,7 @@ def draw_syn(ch, tag='syn', allow_lock=True, allow_modes=True):
         for p in PHASES:
             kinds[p], forms[p] = draw_cn(ch, tag + '.Cn_' + p)
         pr_req = ch.choice(tag + '.phase_ref', ('s', 'l', 'g', None))
-        mode = ch.choice(tag + '.mode', ('ctor', 'ctor', 'ref_setter', 'S0_setter', 'Tb_setter', 'at_state', 'copy_models')) if allow_modes else 'ctor'
+        mode = ch.choice(tag + '.mode', ('ctor', 'ctor', 'ref_setter', 'S0_setter', 'Tb_setter', 'at_state', 'copy_models', 'copy_edit')) if allow_modes else 'ctor'
     spec = dict(Tm=Tm, Tb=Tb, Hfus=Hfus, Sfus=Hfus / Tm, S0=S0, A=A, B=B, lock=lock, how=how, kinds=kinds,
                 forms=forms, pr_req=pr_req, mode=mode)
     if mode == 'ref_setter':
@@ -500,6 +542,14 @@ def draw_syn(ch, tag='syn', allow_lock=True, allow_modes=True):
         spec['S0_first'] = ch.float(tag + '.S0_0', 0.0, 600.0)
     if mode == 'at_state':
         spec['lock_later'] = ch.choice(tag + '.at_state', PHASES)
+    if mode == 'copy_edit':
+        # Chemical.copy, then the copy's heat-capacity models are replaced (as for `Glucose.copy('Biomass')`), with
+        # or without a later reset_free_energies; H and S of the copy must follow the copy's CURRENT Cn
+        ek, ef = {}, {}
+        for p in PHASES:
+            ek[p], ef[p] = draw_cn(ch, tag + '.edit.Cn_' + p)
+        spec['edit_kinds'], spec['edit_forms'] = ek, ef
+        spec['edit_reset'] = ch.bool(tag + '.edit.reset')
     if mode == 'copy_models':
         # a donor with other Cn forms and another Hvap; the target adopts the named models with copy_models_from
         spec['copy_names'] = ch.choice(tag + '.copy.names', CMF_NAMES)
@@ -537,6 +587,16 @@ def build_syn(spec, ID='Syn'):
         c.Tb = Tb
     elif mode == 'S0_setter':
         c.S0 = S0
+    elif mode == 'copy_edit':
+        c = c.copy(ID + 'Copy')
+        for p in PHASES:
+            # a new method name: the copy's models share their method tables with the original's (shallow copy)
+            add_cn(getattr(c.Cn, p), spec['edit_kinds'][p], spec['edit_forms'][p], how, name='EDITED')
+        spec['forms'], spec['kinds'] = spec['edit_forms'], spec['edit_kinds']
+        if spec['edit_reset']:
+            c.reset_free_energies()
+        else:
+            spec['live'] = True      # only the live parts of the functors (the in-phase integrals) follow the edit
     elif mode == 'copy_models':
         dspec = dict(spec, kinds=spec['donor_kinds'], forms=spec['donor_forms'], A=spec['donor_A'], B=spec['donor_B'],
                      mode='ctor', pr_req=None)
@@ -612,6 +672,32 @@ def prop_syn(ch, ctx):
     if (spec['Tm'] < T_REF) != (spec['Tb'] < T_REF): ctx.cell('syn:Tm<Tref<Tb' if spec['Tm'] < T_REF else 'syn:Tb<Tref<Tm')
     rtol = 1e-10 if spec['how'] != 'numeric' else 3e-7
     Tm, Tb = spec['Tm'], spec['Tb']
+    if spec['mode'] == 'copy_edit': ctx.cell('syn:copy_edit=' + ('live' if spec.get('live') else 'reset'))
+    if spec.get('live'):
+        # copy edited without rebuild: reference state, and H/S differences inside each phase against the NEW forms
+        rg = f'src=syn,ref={pr},ph={pr},xm=0,lock=0,mode=copy_edit_live'
+        h0 = ctx.call('H.ref', H_of, c, pr, T_REF, P_REF, region=rg)
+        s0 = ctx.call('S.ref', S_of, c, pr, T_REF, P_REF, region=rg)
+        ctx.check(abs(h0) <= 1e-9, f'H.ref|{rg}|mismatch', f'H at the reference state = {h0!r}')
+        ctx.check(close(s0, spec['S0'], 1e-12, max(1.0, abs(spec['S0']))), f'S.ref|{rg}|mismatch', f'S at the reference state = {s0!r}')
+        for i in range(ch.int('n.pairs', 1, 3)):
+            ph = ch.choice(f'pair{i}.phase', PHASES)
+            T1 = draw_T(ch, f'pair{i}.T1', 30.0, 1500.0, (T_REF, Tb, Tm))
+            T2 = draw_T(ch, f'pair{i}.T2', 30.0, 1500.0, (T_REF, Tb, Tm))
+            P = ch.logfloat(f'pair{i}.P', 3, 7)
+            rg = f'src=syn,ref={pr},ph={ph},xm={crosses_melting(pr, ph, False)},lock=0,mode=copy_edit_live'
+            form = spec['forms'][ph]
+            h1 = ctx.call('H.dT', H_of, c, ph, T1, P, region=rg); h2 = ctx.call('H.dT', H_of, c, ph, T2, P, region=rg)
+            s1 = ctx.call('S.dT', S_of, c, ph, T1, P, region=rg); s2 = ctx.call('S.dT', S_of, c, ph, T2, P, region=rg)
+            F, G = form.F(T1, T2), form.G(T1, T2)
+            ctx.check(close(h2 - h1, F, rtol, abs(F) + 1e-5 * (abs(h1) + abs(h2)) + 1e-6), f'H.dT|{rg}|mismatch',
+                      f'copy with edited Cn: H({ph},{T2})-H({ph},{T1}) = {h2 - h1!r}, integral of its current Cn = {F!r}')
+            ctx.check(close(s2 - s1, G, rtol, abs(G) + 1e-5 * (abs(s1) + abs(s2)) + 1e-8), f'S.dT|{rg}|mismatch',
+                      f'copy with edited Cn: S({ph},{T2})-S({ph},{T1}) = {s2 - s1!r}, integral of its current Cn/T = {G!r}')
+            cn = ctx.call('Cn', Cn_of, c, ph, T1, region=rg)
+            ctx.check(close(cn, form(T1), 1e-13, abs(cn)), f'Cn|{rg}|mismatch', 'Cn handle does not return the edited model')
+        ctx.nontriv(['syn', 'copy_edit_live', pr, spec['how'], [spec['kinds'][p] for p in PHASES]])
+        return
     # evaluation points: the reference state, both sides of each transition, and a random point
     points = [(lock or pr, T_REF, P_REF, 'ref')]
     if not lock:
@@ -941,6 +1027,35 @@ def prop_stream(ch, ctx):
         Cg = ctx.call('stream.C', lambda: s_.C, region=rg)
         ctx.check(close(Hg, Hw, 1e-11, scH), f'stream.H|{rg}|mismatch', f'Stream.H = {Hg!r}, sum n_i H_i = {Hw!r} (flows {a.tolist()})')
         ctx.check(close(Cg, Cw, 1e-11, scC), f'stream.C|{rg}|mismatch', f'Stream.C = {Cg!r}, sum n_i Cn_i = {Cw!r} (flows {a.tolist()})')
+    # a reused Stream: read H, C, S, change ONLY the phase, read again -> the values of the new phase
+    if kind == 'S':
+        ph2 = ch.choice('probe.phase', [p for p in ('l', 'g', 's') if p != phases[0]])
+        xm2 = int(any(crosses_melting(c.phase_ref, ph2, is_locked(c)) for c in th.chemicals))
+        rgp = f'from={phases[0]},to={ph2},xm={xm2}'
+        def make(phase):
+            st_ = tmo.Stream(None, thermo=th, T=T, P=P, phase=phase)
+            for j, v in enumerate(flows[0][0]):
+                if v: st_.imol[names[j]] = v
+            return st_
+        probe = make(phases[0])
+        before = ctx.call('stream.reuse', lambda: (probe.H, probe.C, probe.S), region=rgp)
+        probe.phase = ph2
+        after = ctx.call('stream.reuse', lambda: (probe.H, probe.C, probe.S), region=rgp)
+        fresh = make(ph2)
+        ref = ctx.call('stream.reuse', lambda: (fresh.H, fresh.C, fresh.S), region=rgp)
+        Hw = Cw = scH = scC = 0.0
+        for j, c in enumerate(th.chemicals):
+            v = flows[0][0][j]
+            if v:
+                h = H_of(c, ph2, T, P); cn = Cn_of(c, ph2, T)
+                Hw += v * h; Cw += v * cn; scH += abs(v * h); scC += abs(v * cn)
+        ctx.check(close(after[0], Hw, 1e-11, scH), f'stream.reuse.H|{rgp}|stale',
+                  f'after phase {phases[0]}->{ph2}: Stream.H = {after[0]!r}, sum n_i H_i({ph2}) = {Hw!r} (before: {before[0]!r})')
+        ctx.check(close(after[1], Cw, 1e-11, scC), f'stream.reuse.C|{rgp}|stale',
+                  f'after phase {phases[0]}->{ph2}: Stream.C = {after[1]!r}, sum n_i Cn_i({ph2}) = {Cw!r} (before: {before[1]!r})')
+        ctx.check(after[2] == ref[2], f'stream.reuse.S|{rgp}|stale',
+                  f'after phase {phases[0]}->{ph2}: Stream.S = {after[2]!r}, a fresh stream in {ph2} has {ref[2]!r} (before: {before[2]!r})')
+        ctx.cell('stream:reuse')
     S_in = [ctx.call('stream.S', lambda s=s: s.S, region=rg) for s in inlets]
     C_in = sum(s.C for s in inlets)
     Trecv = T if not eb else ch.choice('recv.T', (T, T + 17.0, T - 23.0))
